@@ -190,7 +190,17 @@ class C19:
         u = self.H.methods["_update"]
         gu = ctx.cfg(u)
         nd = local_assigned_from(ctx, u, "self._get_node(path=$P)") or "node"
-        dl = [n for n in gu.nodes if node_has_call(n, "self._delete(remove_node=%s)" % nd) or node_has_call(n, "self._delete(%s)" % nd)]
+        def _is_delete_of(n, nd=nd):
+            r = cfg_root(n)
+            if r is None:
+                return False
+            for x in ast.walk(r):
+                if isinstance(x, ast.Call) and pat.match("self._delete($$$)", x) is not None:
+                    vals = list(x.args) + [k.value for k in x.keywords]
+                    if len(vals) == 1 and isinstance(vals[0], ast.Name) and vals[0].id == nd:
+                        return True
+            return False
+        dl = [n for n in gu.nodes if _is_delete_of(n)]
         good = bool(dl) and all(any((not pol) and ".type == " in txt for (txt, pol) in ctx.facts(u).facts(n)) for n in dl)
         # on the type-change path make_node is reached only after the delete
         tests = [n for n in gu.nodes if n.kind == "test" and ".type != " in ast.unparse(n.ast)]
